@@ -203,3 +203,59 @@ mod vx_proofs {
     }
 }
 ''' % dict(N=N, It=It, E=E, inst=inst, arms=arms, eqv=('*r == var(i)' if prog.variants else 'r.is_none()'), unw=N + 4)
+
+
+BB_BACK_SMALL = '''else { let n: usize = kani::any(); kani::assume(n <= N + 1); let r = it.nth_back(n);
+            if n < rem { assert!(eqv(&r, *hi - 1 - n)); *hi -= n + 1; } else { assert!(r.is_none()); *lo = *hi; } }'''
+BB_BACK_LARGE = '''else { let r = it.next_back(); if rem > 0 { assert!(eqv(&r, *hi - 1)); *hi -= 1; } else { assert!(r.is_none()); } }'''
+
+BB_TEMPLATE = '''
+#[cfg(kani)]
+mod vx_proofs {
+    use super::*;
+    const N: usize = %(N)d;
+    type En = %(E)s%(inst)s;
+    type It = <En as strum::IntoEnumIterator>::Iterator;
+    fn var(i: usize) -> Option<En> {
+        match i {
+%(arms)s            _ => None,
+        }
+    }
+    fn eqv(r: &Option<En>, i: usize) -> bool { %(eqv)s }
+    fn step(it: &mut It, lo: &mut usize, hi: &mut usize) {
+        let op: u8 = kani::any();
+        let rem = *hi - *lo;
+        if op == 0 { let r = it.next(); if rem > 0 { assert!(eqv(&r, *lo)); *lo += 1; } else { assert!(r.is_none()); } }
+        else if op == 1 { let r = it.next_back(); if rem > 0 { assert!(eqv(&r, *hi - 1)); *hi -= 1; } else { assert!(r.is_none()); } }
+        else if op == 2 { let n: usize = kani::any(); let r = it.nth(n);
+            if n < rem { assert!(eqv(&r, *lo + n)); *lo += n + 1; } else { assert!(r.is_none()); *lo = *hi; } }
+        %(back)s
+        assert!(it.len() == *hi - *lo);
+        let sh = it.size_hint();
+        assert!(sh.0 == *hi - *lo && sh.1 == Some(*hi - *lo));
+    }
+    #[kani::proof]
+    #[kani::unwind(%(unw)d)]
+    fn bb_history() {
+        let mut it = En::iter();
+        assert!(<En as strum::EnumCount>::COUNT == N && it.len() == N);
+        let (mut lo, mut hi) = (0usize, N);
+%(steps)s        let c = it.clone();
+        assert!(c.len() == hi - lo);
+    }
+}
+'''
+
+def kani_blackbox(prog):
+    """Twins that use the public API only (iter / next / next_back / nth / nth_back / len / size_hint / clone): a symbolic history of
+    four operations with symbolic arguments on a fresh iterator is compared, step by step, with the interval model [lo, hi) over the
+    declaration's variant list.  Used when the generated iterator no longer has the idx / back_idx fields the state-based twins are
+    written over.  Bounded: histories of length 4 (every state is reachable in two jumps); nth_back arguments <= N + 1 (N <= 16);
+    for larger enums histories of length 3 with next_back instead of nth_back."""
+    en = prog.enabled()
+    N = len(en)
+    arms = ''.join('            %d => Some(%s),\n' % (i, vspec.rust_default_value(prog, v)) for i, v in enumerate(en))
+    small = N <= 16
+    return BB_TEMPLATE % dict(N=N, E=prog.name, inst=vspec.rust_inst(prog), arms=arms, eqv=('*r == var(i)' if prog.variants else 'r.is_none()'),
+                              back=BB_BACK_SMALL if small else BB_BACK_LARGE, unw=(N + 4 if small else 4),
+                              steps='        step(&mut it, &mut lo, &mut hi);\n' * (4 if small else 3))
